@@ -395,6 +395,60 @@ def part_nesting(ctx: Ctx) -> Result:
         if len(got_funcs) != 3 or any(g is not w for g, w in zip(got_funcs, want_funcs)):
             res.violate(Violation(ID, "spurious-or-misattributed", "state-carried-between-sessions", {"part": "n", "order": [0, 1], "mod": 0, "call": -2, "k": k}, f"second tracing session after importlib.reload: traces attributed to {[getattr(g, '__qualname__', g) for g in got_funcs]} objects that are {'not ' if any(g is not w for g, w in zip(got_funcs, want_funcs)) else ''}the reloaded functions"))
         res.oblige("n:two-sessions-with-reload", True)
+    # the public entry point with the configuration's OWN logger (Config.trace_logger is not overridden: a
+    # CallTraceStoreLogger over the configured store): sessions 1..4 with ONE config object, then one with a second config
+    # object; each session's completed calls reach the store exactly once, when the session ends
+    for k in (0,):
+        import monkeytype
+        from monkeytype.config import Config
+        from monkeytype.db.base import CallTraceStore
+
+        class MemStore(CallTraceStore):
+            def __init__(self):
+                self.batches = []
+
+            def add(self, traces):
+                self.batches.append([t.func.__qualname__ for t in traces])
+
+            def filter(self, module, qualname_prefix=None, limit=2000):
+                return []
+
+            @classmethod
+            def make_store(cls, connection_string):
+                return cls()
+
+        class SessCfg(Config):
+            def __init__(self):
+                self.store = MemStore()
+
+            def trace_store(self):
+                return self.store
+
+            def code_filter(self):
+                return lambda code: code.co_filename in files
+
+        cfgs = [SessCfg(), SessCfg()]
+        plan = [(0, ["leaf"]), (0, ["leaf", "top"]), (0, []), (0, ["leaf"]), (1, ["leaf"])]
+        for si, (ci_, fnames_) in enumerate(plan):
+            cfg = cfgs[ci_]
+            before = sum(len(b) for b in cfg.store.batches)
+            with monkeytype.trace(cfg):
+                for fname_ in fnames_:
+                    getattr(mods[0], fname_)(1)
+            got = [q for b in cfg.store.batches for q in b][before:]
+            ref = Collector()   # the same calls under trace_calls with a plain collecting logger
+            with trace_calls(ref, k, lambda code: code.co_filename in files):
+                for fname_ in fnames_:
+                    getattr(mods[0], fname_)(1)
+            want = [t.func.__qualname__ for t in ref.traces]
+            res.states += 1
+            res.transitions += 1
+            res.evaluations += 1
+            if got != want:
+                res.violate(Violation(ID, "missing" if len(got) < len(want) else "spurious-or-misattributed", "sessions-with-the-configured-logger", {"part": "n", "order": [0, 1], "mod": 0, "call": -4, "k": k}, f"session {si + 1} of monkeytype.trace(config) (config object #{ci_}, its own trace_logger): the store received {got} for the completed calls {want}"))
+                break
+        else:
+            res.oblige("n:sessions-with-the-configured-logger", True)
     # a generator / coroutine that was started BEFORE the tracing block and is resumed and finished inside it: its call did
     # not start while tracing was active, so either nothing is logged for it or the trace describes the call as it started
     # (argument types of the call's arguments) - never a trace that begins in mid-life with rebound locals
@@ -790,6 +844,7 @@ def run(ctx: Ctx) -> Result:
     res.obligations.setdefault("n:twin-code-objects-equal", False)
     res.obligations.setdefault("n:two-sessions-with-reload", False)
     res.obligations.setdefault("n:logger-faults", False)
+    res.obligations.setdefault("n:sessions-with-the-configured-logger", False)
     res.obligations.setdefault("n:generator-started-before-tracing", False)
     res.obligations.setdefault("u:type-collection-really-failed", False)
     return res
